@@ -527,7 +527,8 @@ impl Oplog {
             && r->Ok_0->Left_0.info_type == StoreInfoType::Content && r->Ok_0->Left_0.index == 0 && r->Ok_0->Left_0.length is None && !r->Ok_0->Left_0.allow_miss,
         // C07: a valid header slot is enough to open, whatever the other slot holds
         info is Some && r is Ok ==> r->Ok_0 is Right
-            && (forall|i: int| 0 <= i < r->Ok_0->Right_0.infos_to_flush@.len() ==> flushable(#[trigger] r->Ok_0->Right_0.infos_to_flush@[i]))
+            && (forall|i: int| 0 <= i < r->Ok_0->Right_0.infos_to_flush@.len() ==> flushable(#[trigger] r->Ok_0->Right_0.infos_to_flush@[i])
+                    && r->Ok_0->Right_0.infos_to_flush@[i].store == Store::Oplog)
             && r->Ok_0->Right_0.infos_to_flush@.len() <= 2
             && header_small_spec(r->Ok_0->Right_0.header) == header_small_spec(r->Ok_0->Right_0.header),
         info is Some && r is Ok && (slot_leader(info->Some_0.data->Some_0@, 0) is Some || slot_leader(info->Some_0.data->Some_0@, 4096) is Some)
